@@ -27,7 +27,13 @@ projective result compared bit for bit with the fresh eight-corner loop.
 A law that the real code violates is reported as a VIOLATION with a stable key naming the call site.  The five laws
 box-intersects:empty-vs-containing, interval-intersects:empty-vs-containing, transform-outparam:empty-input-leaves-result,
 transform-outparam:infinite-input-leaves-result, transform-outparam:projective-extends-old-result were violated by the
-original tree (repaired in /repo 955f533, 6dca912); they stay at full strength and fire again if a defect returns."""
+original tree (repaired in /repo 955f533, 6dca912); they stay at full strength and fire again if a defect returns.  A sixth law,
+box-intersects-point:nan-coordinate (every template copy must report a point with a NaN coordinate OUTSIDE: the generic Box<V>::intersects(point)
+reported it inside while the Vec2/Vec3 specialisations and Interval did not), was violated until /repo f7a3ec4.
+
+The `transform` harness also runs the mixed element types S != T, counts the evaluations of every law (obliged > 0), checks the image of
+box points on the projective path when w > 0 at the corners, and prints informational WITNESS lines for the documented limitations
+(w changing sign on the box; Box<Vec2<short>>::center() wrap-around)."""
 import os, re
 import lib, troute
 
@@ -195,7 +201,8 @@ def run(chk):
                        "on the small lattice only (translator validation at int/short/int64/uchar/half confirms the same template runs; Interval<short>::center() is validated at the "
                        "five arithmetic-closed types because C++ promotes short operands to int)",
                        "type bounds: members: hypotheses tlowest < tmax and (forall x, tlowest <= x <= tmax) — a bounded linear order (the finite values of the element type); IEEE "
-                       "infinities / NaN lie outside (makeInfinite() does not contain +-inf; intersects(p) with a NaN coordinate answers true — outside the LinearOrder model). "
+                       "infinities / NaN lie outside (makeInfinite() does not contain +-inf; NaN is not an element of a LinearOrder — for NaN only the harness law "
+                       "box-intersects-point:nan-coordinate is claimed: all template copies report a point with a NaN coordinate outside, since /repo f7a3ec4). "
                        "transforms (ordered field, where no such bound exists): the RANGE-RELATIVE hypothesis that the eight corner images lie within [tlowest, tmax]",
                        "projective path: 'contains the image of every point of the box' is proved under w > 0 at the eight corners (transform_contains_of_pos_w) and is FALSE when w "
                        "changes sign on the box (transform_misses_point_when_w_changes_sign, replayed on the real code as a WITNESS line): a limitation of the property's wording, not a defect",
